@@ -79,6 +79,7 @@ def run(ctx: Ctx) -> None:
     access_widths(ctx, rows, docs, ok_cases)
     flag_pack(ctx, rows, ok_cases)
     decimal_adjust(ctx, rows, ok_cases)
+    counted_bodies(ctx, rows, ok_cases)
 
 
 # ---------------------------------------------------------------------------
@@ -593,3 +594,74 @@ def decimal_adjust(ctx: Ctx, rows: dict, cases: list) -> None:
                               f"opcode 0x{c.opcode:02X} ({c.name}): the decimal correction tests `{tested[:90]}` > 9 but adds 6 to `{adjusted[:90]}`: a digit sum of exactly 9 plus an incoming carry is left uncorrected (or a sum below 10 is corrected)",
                               f"{isa.OPTABLE}:{r.ln}")
     ctx.instance("C04.9/decimal-adjust", "decimal-correction diamonds (test > 9 / +6 / pass through) using one and the same digit sum", n, 4)
+
+
+def _loop_body(il: list) -> tuple[int, int] | None:
+    """(first, last) statement indices of the I-counted loop body: after LABEL(body) up to the back-edge test."""
+    tests = [i for i, st in enumerate(il) if isinstance(st, Term) and st.ctor == "if_expr" and isinstance(st.args[0], Term)
+             and st.args[0].ctor == "compare_equal" and repr(st.args[0].args[1]) == "reg(2, 'I')" and ilfacts.value_of(st.args[0].args[2]) == 0]
+    if len(tests) < 2:
+        return None
+    return tests[0] + 2, tests[-1]
+
+
+def counted_bodies(ctx: Ctx, rows: dict, cases: list) -> None:
+    """Inside the loop of a counted instruction (README: `Loop I times: (m++) ...`):
+       L1 every data access goes through an address that changes in the loop body (otherwise the same cell is processed I times)
+       L2 an address temporary is stepped by exactly one byte; the only wrap masks are 0xFF (internal, rebased on 0x100000) and 0xFFFFF
+       L3 a register rendered with `++` / `--` is written inside the loop body (once per byte), not only before or after it"""
+    n = 0
+    groups: dict[tuple, list] = collections.defaultdict(list)
+    for c in cases:
+        il = c.il_terms
+        lb = _loop_body(il)
+        if lb is None:
+            continue
+        r = rows[c.opcode]
+        body = il[lb[0]:lb[1]]
+        written = set()
+        for st in body:
+            for t in ilfacts.walk(st):
+                if t.ctor == "set_reg":
+                    written.add(repr(t.args[1]))
+        # L1
+        for kind, _w, t in _data_accesses(body):
+            n += 1
+            addr = t.args[1]
+            regs = {repr(x.args[1]) for x in ilfacts.walk(addr) if x.ctor == "reg"} if isinstance(addr, Term) else set()
+            if not (regs & written):
+                groups[("C04.10/loop-invariant-address", c.opcode, f"{kind} at a fixed address inside the I-loop")].append(c)
+        # L2
+        for st in body:
+            if not (isinstance(st, Term) and st.ctor == "set_reg" and "TEMP" in repr(st.args[1]) and st.args[0] == 3):
+                continue
+            me = repr(st.args[1])
+            val = st.args[2]
+            if not any(x.ctor == "reg" and repr(x.args[1]) == me for x in ilfacts.walk(val)):
+                continue          # not a self-update
+            n += 1
+            consts = sorted({ilfacts.value_of(x) for x in ilfacts.walk(val) if x.ctor in ("const", "const_pointer") and isinstance(ilfacts.value_of(x), int)})
+            masks = [m for m in consts if m not in (1, 0x100000)]
+            ok = 1 in consts and all(m in (0xFF, 0xFFFFF) for m in masks) and ((0xFF in masks) == (0x100000 in consts))
+            if not ok:
+                groups[("C04.10/loop-step", c.opcode, f"address temporary stepped with constants {[hex(m) for m in consts]} (expected +-1 with wrap 0xFF@0x100000 or 0xFFFFF)")].append(c)
+        # L3
+        toks = c.tokens
+        for i, (k, t) in enumerate(toks):
+            if k == "TText" and t in ("++", "--"):
+                reg = None
+                if t == "++" and i > 0 and toks[i - 1][0] == "TReg":
+                    reg = toks[i - 1][1]
+                if t == "--" and i + 1 < len(toks) and toks[i + 1][0] == "TReg":
+                    reg = toks[i + 1][1]
+                if reg is None:
+                    continue
+                n += 1
+                if f"'{reg}'" not in written:
+                    anywhere = any(t2.ctor == "set_reg" and repr(t2.args[1]) == f"'{reg}'" for st in il for t2 in ilfacts.walk(st))
+                    groups[("C04.10/loop-autoinc", c.opcode, f"[{reg}{t}] is not updated inside the loop body ({'only outside it' if anywhere else 'never written'}): {reg} ends at most one step away instead of I steps")].append(c)
+    for (rule, op, what), cs in sorted(groups.items(), key=lambda kv: (kv[0][0], kv[0][1])):
+        r = rows[op]
+        ctx.violation(rule, key_of(isa.INSTR_PY, f"opcode 0x{op:02X} {r.cls}", what.split(" (")[0]),
+                      f"opcode 0x{op:02X} ({r.name}): {what} ({len(cs)} cases); text `{''.join(t for _k, t in cs[0].tokens)}`", f"{isa.OPTABLE}:{r.ln}", il=cs[0].il[:8])
+    ctx.instance("C04.10/counted-bodies", "data accesses / address steps / auto-modify registers inside I-counted loops", n, 120)
